@@ -457,13 +457,13 @@ func ruleFlushCount(w *World, r *Report, pfx string, fi *flushInfo) {
 }
 
 type countingLoop struct {
-	ok       bool
-	phi      *ssa.Phi
-	start    ssa.Value
-	step     int64
-	cmpOp    token.Token
-	bound    ssa.Value
-	desc     bool
+	ok    bool
+	phi   *ssa.Phi
+	start ssa.Value
+	step  int64
+	cmpOp token.Token
+	bound ssa.Value
+	desc  bool
 }
 
 // classifyCountingLoop recognises `for i := a; i >= 0; i--` and `for i := 0; i < n; i++` (incl. range-index loops).
